@@ -137,6 +137,17 @@ inductive CmpOp
   | lt | le | gt | ge | eq | ne
 deriving Repr, DecidableEq
 
+/-- the axis keywords of the grammar -/
+def Axis.ofName : String → Option Axis
+  | "self" => some .self
+  | "child" => some .child
+  | "descendant" => some .descendant
+  | "descendant-or-self" => some .descendantOrSelf
+  | "direct-child" => some .directChild
+  | "direct-descendant" => some .directDescendant
+  | "direct-descendant-or-self" => some .directDescendantOrSelf
+  | _ => none
+
 mutual
 inductive Pred
   | not : Pred → Pred
@@ -290,6 +301,12 @@ def findReachableSubset (g : Graph) (valid nodes : List Node) : List Node :=
 inductive Mode
   | nullset | nullglob | nullfail
 deriving Repr, DecidableEq
+
+def Mode.ofName : String → Option Mode
+  | "nullset" => some .nullset
+  | "nullglob" => some .nullglob
+  | "nullfail" => some .nullfail
+  | _ => none
 
 inductive QErr
   /-- "Package '...' not found" -/
